@@ -439,6 +439,7 @@ type CEnv struct {
 	useOld bool
 	fn     *ssa.Function
 	extraLocs []Ptr
+	frame  *Frame
 }
 
 func (e *CEnv) state() *State {
@@ -1022,6 +1023,34 @@ func (e *CEnv) call(n *ast.CallExpr) TV {
 			mt := m.T.Underlying().(*types.Map)
 			k := x.leafTerm(e.coerceKey(e.eval(n.Args[1]), mt.Key()).V)
 			return TV{Scalar{Select(x.heapGet(e.state(), mv.Obj).(MapT).Has, k)}, types.Typ[types.Bool]}
+		case "visited":
+			// visited(N, k): key k has been produced by the map range that drives loop N of the function under verification
+			ord, _ := strconv.Atoi(n.Args[0].(*ast.BasicLit).Value)
+			if x.cur == nil || e.frame == nil || ord < 1 || ord > len(x.cur.headers) {
+				fail("contract: visited(%d, ·) outside a function with such a loop", ord)
+			}
+			hdr := x.cur.headers[ord-1]
+			var vis *Term
+			for blk := range x.cur.bodies[hdr] {
+				for _, ins := range blk.Instrs {
+					if nx, ok := ins.(*ssa.Next); ok {
+						if rv, has := e.frame.get(nx.Iter); has {
+							if r, isR := rv.(RangeV); isR && r.Obj != nil {
+								vis = x.heapGet(e.state(), r.Obj).(Scalar).T
+							}
+						}
+					}
+				}
+			}
+			if vis == nil {
+				fail("contract: loop %d is not a map range", ord)
+			}
+			k := e.eval(n.Args[1])
+			return TV{Scalar{Select(vis, x.leafTerm(k.V))}, types.Typ[types.Bool]}
+		case "sameobj":
+			a := e.deref2(e.eval(n.Args[0]))
+			b := e.deref2(e.eval(n.Args[1]))
+			return TV{Scalar{BoolC(objOf(a) != nil && objOf(a) == objOf(b))}, types.Typ[types.Bool]}
 		case "readerslice":
 			// the slice a bytes.Reader (trusted model) was created over
 			a := e.eval(n.Args[0])
@@ -1401,3 +1430,17 @@ func (e *CEnv) loc(ex ast.Expr) Ptr {
 }
 
 func fileBase(p string) string { return filepath.Base(p) }
+
+func (e *CEnv) deref2(tv TV) Value { return tv.V }
+
+func objOf(v Value) *Object {
+	switch s := v.(type) {
+	case MapV:
+		return s.Obj
+	case SliceV:
+		return s.Obj
+	case Ptr:
+		return s.Obj
+	}
+	return nil
+}
